@@ -65,6 +65,10 @@ CHECKS = {
             "explicit-state breadth-first search over API call histories; transition function = the real API replayed in a fresh ASan process; NULL-argument calls in every protocol state followed by normal completion of the session",
             "All protocol states reachable with <= 2 pictures (encoder) / <= 2 temporal units (decoder) are explored; in each, every NULL-handle / NULL-buffer call and every protocol-legal call is executed; no crash, error code for NULL arguments, rejected configuration leaves the handle usable, no blocking except the owed blocking get_packet.",
             "out-of-order calls with valid pointers are not explored (not demanded); free-running library threads inside each call", "4/C14"),
+    "C10": ("decfuzz_h (asan)", "exploration",
+            "mutation-bounded exhaustive enumeration of decoder inputs (every truncation, bit flip, byte substitution, OBU-level edit, size-field edit and splice of valid seed streams; all short byte strings) executed on the real decoder under ASan+UBSan with in-process fault capture",
+            "Every input within mutation distance 1 of each seed stream, in both framings and both protocols (corrupt unit last / valid units follow), is decoded by a fresh decoder instance followed by teardown; any fault, sanitizer report, hang or teardown failure is a violation keyed by (kind, function).",
+            "SVT-encoded seeds only (3 quick, 5 thorough); mutation distance 1; single-threaded decoder", "4/C10"),
 }
 
 NOT_YET = {}
